@@ -291,7 +291,8 @@ theorem limbOr0_ok (K : Nat) (M : ℝ) (hM : 0 ≤ M) (A : Col) (hA : PrepOK K M
 /-- one output limb of the convolution: the accumulation core applied to the rows `(a[kk−j], b[j])` -/
 theorem cnvLimb_exact (K : Nat) (iomg : Array Nat) (τ Ma Mb : ℝ) (pa pb : List (List C64)) (A B : Col) (kk : Nat)
     (hacci : AccI τ (twOf (invIdx K) iomg) K 0 0 (1 / 4))
-    (hA : PrepOK K Ma A) (hB : PrepOK K Mb B) (hra : PrepRel K τ Ma pa A) (hrb : PrepRel K τ Mb pb B)
+    (hA : ∀ j, (limbOr0 (2 * 2 ^ K) A j).length = 2 ^ (K + 1)) (hB : ∀ j, (limbOr0 (2 * 2 ^ K) B j).length = 2 ^ (K + 1))
+    (hra : PrepRel K τ Ma pa A) (hrb : PrepRel K τ Mb pb B)
     (hA1 : 1 ≤ A.length) (hB1 : 1 ≤ B.length)
     (hdom : ∀ R, 1 ≤ R → R ≤ min A.length B.length → VmpDomain K R τ Ma Mb) :
     idftOf K iomg (cnvLimb refOps K pa pb kk) = cnvCoeff (2 * 2 ^ K) A B kk := by
@@ -333,7 +334,7 @@ theorem cnvLimb_exact (K : Nat) (iomg : Array Nat) (τ Ma Mb : ℝ) (pa pb : Lis
         rw [hrI] at hr
         simp only [List.mem_map, List.mem_range] at hr
         obtain ⟨t, _, rfl⟩ := hr
-        exact ⟨limbOr0_ok K Ma hMa0 A hA _, limbOr0_ok K Mb hMb0 B hB _⟩
+        exact ⟨hA _, hB _⟩
       · rw [hrC, hrI, List.forall₂_map_left_iff, List.forall₂_map_right_iff, List.forall₂_same]
         intro t _
         exact ⟨hra.2 _, hrb.2 _⟩
@@ -370,7 +371,8 @@ theorem cnv_pipeline_exact (K : Nat) (hK2 : 2 ≤ K) (omg iomg : Array Nat) (τ 
   apply List.map_congr_left
   intro k _
   split
-  · exact cnvLimb_exact K iomg τ Ma Mb pa pb A B _ a2 hA hB rpa rpb (by omega) (by omega) (by rw [hAlen, hBlen]; exact hdom)
+  · exact cnvLimb_exact K iomg τ Ma Mb pa pb A B _ a2 (limbOr0_ok K Ma (by have := hd1.Ma1; linarith) A hA) (limbOr0_ok K Mb (by have := hd1.Mb1; linarith) B hB)
+      rpa rpb (by omega) (by omega) (by rw [hAlen, hBlen]; exact hdom)
   · rfl
 
 end Fft64Cnv
